@@ -15,7 +15,7 @@ inductive Extraction where
   | notFound
 deriving Repr, DecidableEq
 
-def maxRecordLen : Nat := 16384
+def maxRecordLen : Nat := 16640   -- tls_parser::MAX_RECORD_LEN = (1 << 14) + 256
 
 /-- `parse_tls_handshake_client_hello` on the handshake body: `some random` iff it parses -/
 def parseClientHelloBody (b : Bytes) : Option Bytes :=
